@@ -183,16 +183,20 @@ def explore(ctx):
     for gap, n in ((0.01, 120), (0.03, 40), (0.2, 6)) if quick else ((0.01, 400), (0.005, 400), (0.03, 100), (0.2, 15), (0.6, 4)):
         q = '* | json | fields id'
         lines = [('{"id": %d, "pad": "%s"}\n' % (i, 'x' * rng.randint(0, 30))).encode() for i in range(n)]
-        out, sent, rc, err = run_scheduled(q, [(l, gap) for l in lines] + [(b'', 0.3)])
-        evaluations += 1
-        worst = 0.0
-        missing = None
-        for i in range(n):
-            ts = sent[i][0] if i < len(sent) else None
-            if i >= len(out):
-                missing = i
+        # a latency above the threshold is measured again (twice): a busy machine delays one run, buffering delays all
+        for attempt in range(3):
+            out, sent, rc, err = run_scheduled(q, [(l, gap) for l in lines] + [(b'', 0.3)])
+            evaluations += 1
+            worst = 0.0
+            missing = None
+            for i in range(n):
+                ts = sent[i][0] if i < len(sent) else None
+                if i >= len(out):
+                    missing = i
+                    break
+                worst = max(worst, out[i][0] - ts)
+            if missing is not None or rc != 0 or worst <= LAT:
                 break
-            worst = max(worst, out[i][0] - ts)
         if missing is not None or rc != 0:
             failures.append({'kind': 'spec', 'what': 'rows lost under a paced producer: %s of %d arrived (rc=%s)' % (len(out), n, rc), 'payload': {'query': q, 'gap_s': gap, 'lines': n}})
         elif worst > LAT:
